@@ -335,21 +335,46 @@ pub fn tape_passes(mut best: Vec<u16>, fails: &dyn Fn(&[u16]) -> bool, budget: u
     best
 }
 
-/// Isolated stages (`Profile::Isolated`) run in a child process that writes the tape it is
-/// about to evaluate to `$VERIF_CURRENT_DIR/cur-<worker>.json`: if the child dies (stack
-/// overflow, abort) the parent knows which cases were running.
-fn record_current(dir: &Option<std::path::PathBuf>, worker: usize, tape: Option<&[u16]>) {
-    if let Some(d) = dir {
-        let path = d.join(format!("cur-{worker}.json"));
-        match tape {
-            Some(t) => {
-                let _ = std::fs::write(&path, serde_json::to_string(&json!({ "tape": t })).unwrap());
+/// Isolated stages run in a child process that records the tape each worker is about to
+/// evaluate in `$VERIF_CURRENT_DIR/cur-<worker>.bin` (one positioned write per case into a file
+/// kept open: u32 length + u16 values, little endian): if the child dies (stack overflow,
+/// abort) the parent knows which cases were running.
+struct CurrentFile(Option<std::fs::File>);
+
+impl CurrentFile {
+    fn open(dir: &Option<std::path::PathBuf>, worker: usize) -> Self {
+        CurrentFile(dir.as_ref().and_then(|d| std::fs::File::create(d.join(format!("cur-{worker}.bin"))).ok()))
+    }
+    fn record(&self, tape: &[u16]) {
+        use std::os::unix::fs::FileExt;
+        if let Some(f) = &self.0 {
+            let mut buf = Vec::with_capacity(4 + 2 * tape.len());
+            buf.extend_from_slice(&(tape.len() as u32).to_le_bytes());
+            for v in tape {
+                buf.extend_from_slice(&v.to_le_bytes());
             }
-            None => {
-                let _ = std::fs::remove_file(&path);
-            }
+            let _ = f.write_all_at(&buf, 0);
         }
     }
+}
+
+/// The tapes recorded by the workers of a child that died.
+pub fn read_current_tapes(dir: &std::path::Path) -> Vec<Vec<u16>> {
+    let mut files: Vec<_> = std::fs::read_dir(dir).map(|rd| rd.filter_map(|e| e.ok()).map(|e| e.path()).collect()).unwrap_or_default();
+    files.sort();
+    let mut out = vec![];
+    for f in files {
+        let Ok(b) = std::fs::read(&f) else { continue };
+        if b.len() < 4 {
+            continue;
+        }
+        let n = u32::from_le_bytes([b[0], b[1], b[2], b[3]]) as usize;
+        if b.len() < 4 + 2 * n {
+            continue;
+        }
+        out.push((0..n).map(|i| u16::from_le_bytes([b[4 + 2 * i], b[5 + 2 * i]])).collect());
+    }
+    out
 }
 
 pub struct RunOpts {
@@ -428,6 +453,7 @@ pub fn run_property(prop: &dyn Property, opts: &RunOpts, golden: &[Vec<u16>]) ->
             let watch = watch.clone();
             handles.push(scope.spawn(move || {
                 let mut stats = Stats::default();
+                let current = CurrentFile::open(current_dir, w);
                 let mut seen_nt: HashSet<u64> = HashSet::new();
                 let rng = rng_for(opts.seed, w as u64, prop.stage());
                 let mut runner = TestRunner::new_with_rng(
@@ -454,9 +480,8 @@ pub fn run_property(prop: &dyn Property, opts: &RunOpts, golden: &[Vec<u16>]) ->
                         (tree.current(), Some(tree))
                     };
                     *watch.slots[w].lock().unwrap() = Some((Instant::now(), tape.clone()));
-                    record_current(current_dir, w, Some(&tape));
+                    current.record(&tape);
                     let rep = prop.eval(&tape);
-                    record_current(current_dir, w, None);
                     *watch.slots[w].lock().unwrap() = None;
                     stats.cases += 1;
                     stats.evaluations += rep.evaluations;
@@ -485,13 +510,12 @@ pub fn run_property(prop: &dyn Property, opts: &RunOpts, golden: &[Vec<u16>]) ->
                         let slot = &watch.slots[w];
                         let fails = |t: &[u16]| -> bool {
                             *slot.lock().unwrap() = Some((Instant::now(), t.to_vec()));
-                            record_current(current_dir, w, Some(t));
+                            current.record(t);
                             let r = prop
                                 .eval(t)
                                 .failure
                                 .map(|x| x.signature == sig)
                                 .unwrap_or(false);
-                            record_current(current_dir, w, None);
                             *slot.lock().unwrap() = None;
                             r
                         };
